@@ -326,13 +326,29 @@ def s3_s4(ctx):
                     {'body': name, 'effect': str(ns), 'path': wit})
     r3.floor('bodies_analysed', len(bodies), 7000)
     r3.floor('bodies_touching_a_scope_primitive', n_touch, 8)
-    # clear only from the init role
+    # clear only from the init role (directly, or in private helpers that only the init role calls)
     init_role = init_fn(m)
+    callers_of = {}
+    for name, b in bodies.items():
+        for c in b.calls:
+            if c.callee in bodies:
+                callers_of.setdefault(c.callee, set()).add(m.owner(name))
+        for rf in b.refs:
+            if rf in bodies and m.bodies[rf].kind == 'fn':
+                callers_of.setdefault(rf, set()).add('<referenced>')
+    init_only = {init_role}
+    changed = True
+    while changed:
+        changed = False
+        for fn_, cs in callers_of.items():
+            if fn_ not in init_only and cs and cs <= init_only:
+                init_only.add(fn_)
+                changed = True
     for name, b in bodies.items():
         for c in b.calls:
             if c.callee in clear_fns:
                 r3.inst('clear-site:' + short(name))
-                if name != init_role:
+                if m.owner(name) not in init_only:
                     r3.fail('%s:%s:clear-outside-init' % (PARSER, short(name)), b.where(),
                             '%s clears a scope stack outside the init role (%s)' % (short(name), short(init_role or '?')))
 
